@@ -14,6 +14,8 @@ import RedisVerif.Props.C16
     R2L <resp>        → `resp_to_lua_value`, rendered as a Lua value
     L2R <lua>         → `lua_to_resp`, rendered as a RESP value
     RT <resp>         → `lua_to_resp (resp_to_lua_value r)`
+    LA <lua>          → the bytes a redis.call argument becomes (`parse_multivalue_to_bytes`): $<hex> | refused
+    TN                → the command names of `table`, sorted (compared with the match arms of the source)
     LT <i>            → row i of the translator's error alphabet `C16.luaErrTable` (name, arity text,
                         error literals, prefixes of formatted errors) | end
   RESP values (prefix notation):  +<hex>  -<hex>  :<int>  $<hex>  $-  *-  *<n> v1 … vn
@@ -85,6 +87,7 @@ def luaP : Nat → P LuaVal
     let t ← tok
     match t.toList with
     | ['n', 'i', 'l'] => pure .nil
+    | ['o', 't', 'h', 'e', 'r'] => pure .other
     | ['t', 'r', 'u', 'e'] => pure (.bool true)
     | ['f', 'a', 'l', 's', 'e'] => pure (.bool false)
     | 'i' :: cs => match (String.ofList cs).toInt? with | some i => pure (.int i) | none => failure
@@ -120,6 +123,7 @@ partial def showLua : LuaVal → String
   | .okT s => "ok" ++ hexOfBytes s
   | .errT s => "err" ++ hexOfBytes s
   | .arr xs => " ".intercalate (s!"t{xs.length}" :: xs.map showLua)
+  | .other => "other"
 end
 
 def step (line : String) : String :=
@@ -153,6 +157,14 @@ def step (line : String) : String :=
   | "RT" :: ts => match (respP (ts.length + 1)).run ts with
     | some (r, []) => showResp (luaToResp (respToLua r))
     | _ => "bad-op"
+  | "LA" :: ts => match (luaP (ts.length + 1)).run ts with
+    | some (v, []) => match luaArgBytes v with
+      | some b => "$" ++ hexOfBytes b
+      | none => "refused"
+    | _ => "bad-op"
+  | ["TN"] =>
+    let names := (table.map Entry.name).map strOf
+    ",".intercalate (names.toArray.qsort (· < ·)).toList
   | ["LT", i] => match i.toNat? with
     | some n => match RedisVerif.C16.luaErrTable[n]? with
       | some r =>
